@@ -30,7 +30,8 @@ MIN_HITS = {'quick': 3000, 'thorough': 120000}
 CASE_TIMEOUT = 900
 
 NATOMS = {'bonds': 2, 'angles': 3, 'dihedrals': 4, 'constraints': 2, 'pairs': 2, 'exclusions': None, 'virtual_sites2': 3,
-          'position_restraints': 1}
+          'position_restraints': 1, 'pairs_nb': 2, 'virtual_sites3': 4, 'distance_restraints': 2, 'SETTLE': 1,
+          'orientation_restraints': 2, 'dihedral_restraints': 4}
 EDGE_TYPES = ('bonds', 'angles', 'dihedrals', 'cmap', 'constraints')
 
 
@@ -65,6 +66,11 @@ def gen_ff(rnd):
         sections = []
         for _ in range(rnd.randint(0, 4)):
             t = rnd.choice(['bonds', 'angles', 'dihedrals', 'constraints', 'exclusions', 'position_restraints', 'pairs'])
+            if rnd.random() < 0.2:
+                # the rarely used interaction sections take the same code path through another row of the dispatch table
+                t = rnd.choice(['pairs_nb', 'virtual_sites2', 'virtual_sites3', 'distance_restraints', 'orientation_restraints',
+                                'dihedral_restraints', 'pairs_nb', 'virtual_sites2', 'distance_restraints'] +
+                               (['SETTLE'] if rnd.random() < 0.15 else []))
             n = NATOMS[t] or rnd.randint(2, 3)
             if n > nat:
                 continue
@@ -115,6 +121,9 @@ def gen_ff(rnd):
             key_attrs = {pk: {} for pk in pool}
         for _ in range(rnd.randint(1, 3)):
             t = rnd.choice(['bonds', 'angles', 'dihedrals', 'constraints', 'exclusions', '!bonds', '!angles'])
+            if rnd.random() < 0.2:
+                t = rnd.choice(['pairs', 'pairs_nb', 'position_restraints', 'virtual_sites2', 'distance_restraints', '!pairs_nb',
+                                '!constraints', 'orientation_restraints'])
             n = NATOMS[t.lstrip('!')] or 2
             lines = []
             for _ in range(rnd.randint(1, 2)):
@@ -160,7 +169,21 @@ def gen_ff(rnd):
         anchors = rnd.sample(['CA', 'C', 'N'], rnd.randint(1, 2))
         ptm = ['X%d%d' % (mi, j) for j in range(rnd.randint(1, 2))]
         edges = [(anchors[0], ptm[0])] + [(ptm[j], ptm[j + 1]) for j in range(len(ptm) - 1)] + [(anchors[0], a) for a in anchors[1:]]
-        items.append({'kind': 'mod', 'name': name, 'anchors': anchors, 'ptm': ptm, 'edges': edges,
+        msec = []
+        mnames = anchors + ptm
+        for _ in range(rnd.choice([0, 0, 1, 2, 3])):
+            t = rnd.choice(['bonds', 'angles', 'constraints', 'pairs', 'pairs_nb', 'position_restraints', 'exclusions',
+                            'virtual_sites2', 'distance_restraints', 'impropers'])
+            n = {'impropers': 4}.get(t, NATOMS.get(t)) or 2
+            if n > len(mnames) or any(x['type'] == t for x in msec):
+                continue
+            lines = []
+            for _ in range(rnd.randint(1, 2)):
+                lines.append({'atoms': rnd.sample(mnames, n), 'params': [] if t == 'exclusions' else
+                              [rnd.choice(['1', '2'])] + [rnd.choice(['0.31', '109.5', '400']) for _ in range(rnd.randint(0, 2))],
+                              'meta': {'group': 'mod%d' % mi} if rnd.random() < 0.3 else None})
+            msec.append({'type': t, 'lines': lines})
+        items.append({'kind': 'mod', 'name': name, 'anchors': anchors, 'ptm': ptm, 'edges': edges, 'sections': msec,
                       'replace': {ptm[0]: {'atomname': 'OXT'}} if rnd.random() < 0.3 else {}})
     rnd.shuffle(items)
     d['items'] = items
@@ -309,6 +332,16 @@ def render_ff(d, rnd, fault=None):
             emit('[ edges ]', ['subsection'])
             for u, v in it['edges']:
                 emit('%s %s' % (u, v))
+            for sct in it.get('sections', []):
+                emit('[ %s ]' % sct['type'], ['subsection'])
+                for l in sct['lines']:
+                    toks = list(l['atoms'])
+                    if NATOMS.get(sct['type'], 4) is None or (l['meta'] and not l['params']) or rnd.random() < 0.2:
+                        toks.append('--')
+                    toks += l['params']
+                    if l['meta']:
+                        toks.append(json.dumps(l['meta']))
+                    emit(' '.join(toks))
     applied = None
     if fault:
         applied = apply_fault(out, eligible, fault, rnd, d)
@@ -483,7 +516,11 @@ def expected_ff(d):
                 nodes[p] = {'element': 'O', 'PTM_atom': True, 'atomname': p, 'order': 0}
                 if p in it['replace']:
                     nodes[p]['replace'] = it['replace'][p]
-            exp['mods'].append({'name': it['name'], 'nodes': nodes, 'edges': {frozenset(e) for e in it['edges']}})
+            minter = {}
+            for sct in it.get('sections', []):
+                for l in sct['lines']:
+                    minter.setdefault(sct['type'], []).append((tuple(l['atoms']), [sub(p_) for p_ in l['params']], dict(l['meta'] or {})))
+            exp['mods'].append({'name': it['name'], 'nodes': nodes, 'edges': {frozenset(e) for e in it['edges']}, 'inter': minter})
     return exp
 
 
@@ -520,7 +557,9 @@ def observed_ff(ff):
                              'features': set(l.features), 'molmeta': plain(dict(l.molecule_meta))})
     for name, m in ff.modifications.items():
         obs['mods'].append({'name': m.name, 'nodes': {k: plain(dict(d)) for k, d in m.nodes(data=True)},
-                            'edges': {frozenset(e) for e in m.edges}})
+                            'edges': {frozenset(e) for e in m.edges},
+                            'inter': {t: [(tuple(i.atoms), [plain(p_) for p_ in i.parameters], plain(dict(i.meta))) for i in lst]
+                                      for t, lst in m.interactions.items() if lst}})
     return obs
 
 
@@ -549,7 +588,7 @@ def compare_ff(exp, obs):
             if o[fld] != e[fld]:
                 return ('ff/link-' + fld, {'link_index': i, 'observed': repr(o[fld])[:600], 'expected': repr(e[fld])[:600]})
     for o, e in zip(obs['mods'], exp['mods']):
-        if o['nodes'] != e['nodes'] or o['edges'] != e['edges']:
+        if o['nodes'] != e['nodes'] or o['edges'] != e['edges'] or o['inter'] != e['inter']:
             return ('ff/modification', {'name': e['name'], 'observed': repr(o)[:500], 'expected': repr(e)[:500]})
     return None
 
@@ -565,6 +604,9 @@ def check_ff(rnd, b):
         read_ff(text.splitlines(), ff)
     except Exception as e:
         import traceback
+        if "section '['settle']'" in repr(e) and '[ SETTLE ]' in text:
+            # classified by mechanism: the documented section name SETTLE can never match, header names are case-folded
+            return ('ff/section-name-SETTLE-unreachable', {'error': repr(e), 'text': text}), d, text
         return ('ff/valid-file-rejected', {'error': repr(e), 'cause': repr(e.__cause__), 'text': text}), d, text
     p = compare_ff(expected_ff(d), observed_ff(ff))
     if p:
